@@ -64,6 +64,7 @@ def run_cases(ctx, mod, only=None, final=True, flush_to=None):
         ctx.end_case()
     from . import reach
     reach.report(ctx, ())
+    reach.cover_report(ctx)
     ctx.extra['contracts_bound_in_namespaces'] = install.bindings()
     if final and only is None:
         final_guards(ctx, mod)
